@@ -501,6 +501,26 @@ struct Gen {
         plan.steps.push_back(s);
       }
     }
+    // "first call of the process has other arguments": for half of the probes the same operation is executed once,
+    // with other operands / another container size, before anything else in process B or C (what a function-local
+    // static initialised from the first call's arguments would need)
+    for (const Step& p : probes) {
+      if (!rng.chance(0.5)) continue;
+      Step wst = p;
+      const OpInfo& inf = op_info(p.op.op);
+      const GroupVT* vt = vts[p.group];
+      wst.op.thread = rng.chance(0.5) ? R_WARM_B : R_WARM_C;
+      if (inf.cls == C_ALG && (p.op.op == OP_AVG_BIINV || p.op.op == OP_AVG || p.op.op == OP_AVG_FL || p.op.op == OP_AVG_FR)) {
+        wst.op.variant ^= V_SUB; wst.op.c = (uint8_t)rng.below(4);
+      } else {
+        wst.op.a = (uint8_t)rng.below((inf.cls == C_TAN || (inf.cls == C_STATIC && (p.op.op == OP_VEE || p.op.op == OP_BRACKET_S))) ? 4 : 6);
+        if (inf.arg2 == A_ELEM) wst.op.b = (uint8_t)rng.below(6);
+        if (inf.arg2 == A_TAN) wst.op.b = (uint8_t)rng.below(4);
+        if (inf.arg2 == A_PT) wst.op.b = (uint8_t)rng.below(vt->NP);
+        if (p.op.op == OP_GENERATOR || p.op.op == OP_T_GENERATOR_M) wst.op.c = (uint8_t)rng.below(vt->dof);
+      }
+      plan.steps.push_back(wst);
+    }
     // history with probes interleaved, each probe at least twice
     int hl = (int)rng.below(thorough ? 120 : 61);
     std::vector<Step> seq;
